@@ -40,7 +40,7 @@ fn world(text: &str, known: &[R]) -> W {
         }
     }
     let chars: Vec<char> = text.chars().collect();
-    let wsbits = if chars.is_empty() { "-".into() } else { chars.iter().map(|c| if c.is_whitespace() { '1' } else { '0' }).collect() };
+    let wsbits = if chars.is_empty() { "-".into() } else { chars.iter().map(|c| crate::fam::rel::wsbit(*c)).collect() };
     W { store, chars, wsbits, known: k }
 }
 
@@ -195,7 +195,7 @@ pub fn exec_line(line: &str) -> String {
     if t.len() != 8 {
         return "bad-op".into();
     }
-    let text: String = if t[1] == "-" { String::new() } else { t[1].chars().map(|c| if c == '1' { ' ' } else { 'a' }).collect() };
+    let text: String = if t[1] == "-" { String::new() } else { t[1].chars().map(crate::fam::rel::unwsbit).collect() };
     let proto = format!("rel tt {} {} {} {} {} u:0-0 u:0-0", t[1], t[2], t[3], t[4], t[5]);
     let op = match parse_op(&proto) {
         Some(o) => o,
@@ -274,7 +274,7 @@ pub fn run(opts: &Opts) -> Report {
     }
     // ---------- random geometries ----------
     let rounds = if opts.thorough() { 1500 } else { 150 };
-    let alphabet = ['a', 'b', ' ', ' ', 'c', '\u{e9}'];
+    let alphabet = ['a', 'b', ' ', '\u{00a0}', 'c', '\u{e9}'];
     for _ in 0..rounds {
         let n = 6 + rng.below(if opts.thorough() { 34 } else { 10 });
         let text: String = (0..n).map(|_| *rng.pick(&alphabet)).collect();
